@@ -382,7 +382,7 @@ pub fn run(ctx: &Ctx) -> i32 {
     };
     // 5. containers: shape chains and small trees
     let n_leaves = data::leaf_atoms().len();
-    let depth = std::env::var("C10_DEPTH").ok().and_then(|s| s.parse().ok()).unwrap_or(ctx.tier.pick(4u32, 6u32));
+    let depth = std::env::var("C10_DEPTH").ok().and_then(|s| s.parse().ok()).unwrap_or(ctx.tier.pick(5u32, 6u32));
     let mut a_cont = Acc::new();
     for d in 1..=depth {
         let n = data::chain_count(d, n_leaves);
